@@ -104,6 +104,7 @@ type Specs struct {
 	LockInvs  []*LockInv
 	Opaque    map[string]bool // fully qualified type names treated as opaque sorts
 	PureFns   []*regexp.Regexp
+	FuncFns   []*regexp.Regexp // side-effect free AND deterministic: result is a function of the arguments
 	TypeInvs  map[string][]Clause // per qualified struct type: invariants assumed for values of it
 	GhostVars map[string]*GhostField
 	Files     []string
@@ -121,13 +122,16 @@ var clauseKeywords = map[string]bool{
 }
 var topKeywords = map[string]bool{
 	"func": true, "extern": true, "iface": true, "spec": true, "axiom": true, "lemma": true, "ghost": true,
-	"lockinv": true, "fieldfunc": true, "opaque": true, "pure": true, "typeinv": true,
+	"lockinv": true, "fieldfunc": true, "opaque": true, "pure": true, "typeinv": true, "functions": true,
 }
 
 // qualify turns a name written inside package pkgPath into a full key.
 func qualify(name, pkgPath string) string {
 	if pkgPath == "" {
 		return name
+	}
+	if strings.HasPrefix(name, "functype:") {
+		return "functype:" + qualifyType(strings.TrimPrefix(name, "functype:"), pkgPath)
 	}
 	// already qualified: the receiver type / function name carries a package path
 	head := name
@@ -479,13 +483,17 @@ func (sp *Specs) ParseFile(path, pkgPath string) error {
 				sp.Opaque[qualifyType(t, pkgPath)] = true
 			}
 			cur, curLoop = nil, nil
-		case "pure":
+		case "pure", "functions":
 			for _, t := range strings.Fields(l.rest) {
 				re, err := regexp.Compile("^" + t + "$")
 				if err != nil {
 					return fmt.Errorf("%s:%d: %v", path, l.line, err)
 				}
-				sp.PureFns = append(sp.PureFns, re)
+				if l.kw == "pure" {
+					sp.PureFns = append(sp.PureFns, re)
+				} else {
+					sp.FuncFns = append(sp.FuncFns, re)
+				}
 			}
 			cur, curLoop = nil, nil
 		}
